@@ -30,6 +30,7 @@ func Scan(data string, loc SourceLoc, delims []string) (tokens []Token) {
 	p, pe := 0, len(data)
 	opaque := "" // "raw" or "comment", when the tag that opens such a block has just been scanned
 	endMatchers := map[string]*regexp.Regexp{}
+	noEndTag := map[string]bool{}
 	for p < pe {
 		if opaque != "" {
 			// The body of a raw or comment block is not tokenised: it ends at the first end tag, whatever
@@ -39,11 +40,17 @@ func Scan(data string, loc SourceLoc, delims []string) (tokens []Token) {
 				em = formEndMatcher(delims, "end"+opaque)
 				endMatchers[opaque] = em
 			}
-			if end := em.FindStringIndex(data[p:]); end != nil && end[0] > 0 {
-				body := data[p : p+end[0]]
-				tokens = append(tokens, Token{Type: TextTokenType, SourceLoc: loc, Source: body})
-				loc.LineNo += strings.Count(body, "\n")
-				p += end[0]
+			// (once the search has failed there is no such end tag further on either: it is not repeated, or a
+			// source full of unterminated raw tags would be scanned once per tag)
+			if !noEndTag[opaque] {
+				if end := em.FindStringIndex(data[p:]); end == nil {
+					noEndTag[opaque] = true
+				} else if end[0] > 0 {
+					body := data[p : p+end[0]]
+					tokens = append(tokens, Token{Type: TextTokenType, SourceLoc: loc, Source: body})
+					loc.LineNo += strings.Count(body, "\n")
+					p += end[0]
+				}
 			}
 			opaque = ""
 		}
